@@ -325,7 +325,7 @@ func replay(tier string, raw json.RawMessage) (bool, string, string) {
 func init() {
 	core.Register(&core.Prop{
 		ID: "C20", Variant: "plain", Shards: shards, Run: run, Replay: replay,
-		Rule: "every (prefix, text over {a,b,\\n}, composition into Write calls incl. one empty Write, stop point B of the underlying writer) is one execution of the real indent.NewWriter against a reference indenter with a source-index map; states = distinct executions (generator is injective); transitions = Write calls issued; non-trivial = a fault strictly inside the output or more than one Write call",
+		Rule:        "every (prefix, text over {a,b,\\n}, composition into Write calls incl. one empty Write, stop point B of the underlying writer) is one execution of the real indent.NewWriter against a reference indenter with a source-index map; states = distinct executions (generator is injective); transitions = Write calls issued; non-trivial = a fault strictly inside the output or more than one Write call",
 		Assumptions: []string{"the underlying writer fails at most once and the caller stops writing after the first error", "texts over a 3-symbol alphabet stand for all texts: the writer only distinguishes line breaks from other bytes"},
 	})
 }
